@@ -105,11 +105,13 @@ SortedVers(S) == SelectSeq([v \in Vers |-> v], LAMBDA v : v \in S)
 \* ------------------------------------------------------------------ projection and log
 St == [ver |-> ver, avail |-> SortedVers(exists), w |-> work, poisoned |-> poisoned, dirty |-> dirty,
        wk |-> <<ver, pend>>, opt |-> opt]
+\* the retained versions with their contents, in order: << <<v, saved[v]>>, ... >>
+SvList == LET vs == SortedVers(exists) IN [i \in 1..Len(vs) |-> <<vs[i], saved[vs[i]]>>]
 VerActs == {"Init", "SaveVersion", "Rollback", "LoadVersion", "Reopen", "Prune", "Migrate", "Finish"}
 Log(r) == /\ n' = n + 1
           /\ hist' = IF Quiet THEN hist
                      ELSE Append(hist, r @@ [st |-> St']
-                                         @@ (IF SvAlways \/ r.act \in VerActs THEN [sv |-> saved'] ELSE <<>>))
+                                         @@ (IF SvAlways \/ r.act \in VerActs THEN [sv |-> SvList'] ELSE <<>>))
 
 Init ==
   /\ work = EmptyMap /\ saved = [v \in Vers |-> EmptyMap] /\ exists = {} /\ first = 0 /\ latest = 0
@@ -120,7 +122,7 @@ Init ==
                            /\ script = (IF sc = <<>> THEN <<>> ELSE sc[fam])
   /\ pc = 1 /\ gap = 0 /\ gapmax = 2 /\ spend = <<>> /\ kinds = {1, 2, 30}
   /\ hist = IF Quiet THEN <<>>
-            ELSE << [act |-> "Init", reply |-> "ok", fam |-> fam, st |-> St, sv |-> saved] >>
+            ELSE << [act |-> "Init", reply |-> "ok", fam |-> fam, st |-> St, sv |-> SvList] >>
 
 Refused == Bptree /\ poisoned
 
@@ -225,6 +227,21 @@ SaveVersion ==
           /\ shk' = [shk EXCEPT ![nv] = <<ver, pend>>]
           /\ UNCHANGED <<work, poisoned, readers, opt>>
           /\ Log([act |-> "SaveVersion", reply |-> "ok", v |-> nv])
+
+\* Replay: the tree was loaded at a version whose successor exists; the caller re-applies exactly the writes the
+\* successor was saved from (block replay after a restart at an older height). The working tree then IS the
+\* successor: a SaveVersion is accepted as idempotent (same hash, same version, the persisted version adopted) and
+\* the history goes on as if nothing had happened; any other write before it makes the save a mismatch.
+CanReplay == /\ ~dirty /\ ~poisoned /\ pend = <<>> /\ ver < latest /\ (ver + 1) \in exists
+             /\ shk[ver + 1][1] = ver /\ shk[ver + 1][2] # <<>>
+AtReplayEnd == dirty /\ ~poisoned /\ ver < latest /\ (ver + 1) \in exists /\ <<ver, pend>> = shk[ver + 1]
+Replay ==
+  /\ n < MaxLen /\ CanReplay
+  /\ work' = saved[ver + 1]                 \* = the recorded writes applied to saved[ver] (HkFunctional)
+  /\ dirty' = TRUE
+  /\ pend' = shk[ver + 1][2]
+  /\ UNCHANGED <<saved, exists, first, latest, ver, poisoned, readers, opt, shk>>
+  /\ Log([act |-> "Replay", ops |-> shk[ver + 1][2], reply |-> "ok"])
 
 Rollback ==
   /\ n < MaxLen
@@ -336,7 +353,7 @@ Next ==
   \/ \E k \in Keys, v \in Vals : Set(k, v)
   \/ \E k \in Keys : Remove(k)
   \/ \E c \in {"emptykey", "nilvalue"} : SetBad(c)
-  \/ SaveVersion \/ Rollback
+  \/ SaveVersion \/ Rollback \/ Replay
   \/ \E v \in 0..(MaxVer + 1) : LoadVersion(v)
   \/ \E o \in Opts : Reopen(o)
   \/ \E to \in Vers : Prune(to)
@@ -378,13 +395,13 @@ SimReads == \E t \in {RE(Targets \cup {0})}, j \in {RE(1..9)} : t \in Targets /\
 \* TLC computes every successor before it picks one; with several hundred keys that is the whole cost of
 \* a behaviour. So the kinds of action tried in a step are drawn in the previous step (variable kinds):
 \* four random kinds plus a single-key Set (always enabled), instead of all of them.
-NKinds == 30
+NKinds == 32
 KindAct(j) ==
   CASE j \in 1..6 -> SimWrites
     [] j \in 7..10 -> SaveVersion
     [] j = 11 -> Rollback
     [] j = 12 -> \E v \in {RE(0..(MaxVer + 1))} : LoadVersion(v)
-    [] j = 13 -> \E v \in {RE(exists \cup {0})} : LoadVersion(v)
+    [] j = 13 -> \E v \in {RE({x \in exists : x < latest} \cup {0})} : LoadVersion(v)   \* an older version: replay
     [] j = 14 -> \E o \in {RE(Opts)} : Reopen(o)
     [] j = 15 -> \E to \in {RE({v \in Vers : v < latest /\ v < ver} \cup {1})} : Prune(to)
     [] j = 16 -> \E to \in {RE(Vers)} : Prune(to)
@@ -396,13 +413,20 @@ KindAct(j) ==
     [] j = 28 -> \E k \in {RE(Keys)}, v \in {RE(0..(MaxVer + 1))} : GetVersioned(k, v)
     [] j = 29 -> \E v \in {RE(exists \cup {1})} : ExportImport(v)
     [] j = 30 -> \E k \in {RE(Keys)}, v \in {RE(Vals)} : Set(k, v)
+    [] j \in 31..32 -> \E v \in {RE({x \in exists : x < latest} \cup {0})} : LoadVersion(v)
+    [] j = 40 -> Replay
+\* after a load of an older version the replay of its successor is one of two candidates; at the end of a replay
+\* the save (idempotent) or one more write (then the save is a mismatch)
+SimKinds == IF CanReplay THEN {40} \cup (IF RE(1..3) = 1 THEN {RE(1..NKinds)} ELSE {})
+            ELSE IF AtReplayEnd THEN {7} \cup (IF RE(1..3) = 1 THEN {RE(1..6)} ELSE {})
+            ELSE {RE(1..NKinds), RE(1..NKinds), RE(1..NKinds), RE(1..NKinds), 30}
 \* universes of 1000 keys and more start with a fill of all keys (ascending: 90/10 splits, > 32 nearly full
 \* leaves; descending: 50/50 splits, half-full leaves), so that the root is an inner node over inner nodes
 \* and the later range removals merge and redistribute at both levels
 NextSim == /\ IF n = 1 /\ NK >= 1000
               THEN \E s \in {RE(0..5)}, a \in {RE(BOOLEAN)} : Fill(1, NK, s, a)
               ELSE \E j \in kinds : KindAct(j)
-           /\ kinds' = {RE(1..NKinds), RE(1..NKinds), RE(1..NKinds), RE(1..NKinds), 30}
+           /\ kinds' = SimKinds'
 
 \* Shape simulation (C23): a tree of three levels (a full fill of >= 1000 keys), then mostly thinning, plucking
 \* and small re-fills, so that leaves sit at the minimum fill next to fuller ones and inner nodes underflow:
@@ -445,16 +469,37 @@ ShapeAct(j) ==
     [] j = 42 -> \E s \in {RE(0..5)} : Fill(1, NK, s, FALSE)
     [] j = 31 -> \E lo \in {RE({16, 16, 17})}, a \in {RE(BOOLEAN)} : Thin(1, NK, 31, lo, 31, a)
     [] j = 32 -> FullPass
+    \* chains of small sessions, each saved at once: a handful of removals (often a single one) out of leaves at the
+    \* minimum merge two leaves, the inner node above them underflows and is merged into a sibling that this session
+    \* has not touched, and nothing else of the session passes through the merged node before SaveVersion
+    [] j = 43 -> \/ \E k \in {RE((NK \div 3)..NK)} : work[k] # 0 /\ Remove(k)
+                 \/ \E f \in {RE(Keys)}, c \in {RE({1, 17, 40, 90})}, p \in {RE({16, 31})}, o \in {RE(0..15)}, a \in {RE(BOOLEAN)} :
+                       Thin(f, c, p, o, o + 1, a)
+    [] j = 44 -> SaveVersion
+    \* one key out of the last leaves: after a descending fill the last inner node and its left sibling are both at
+    \* the minimum, so this single removal merges two leaves and then the last inner node into its left sibling
+    [] j = 45 -> \E k \in {RE((NK - 100)..NK)} : work[k] # 0 /\ Remove(k)
     [] OTHER -> FALSE
+Chain == IF latest < MaxVer /\ ~poisoned THEN {43} ELSE {RE(1..15), 30}
 FreeKinds == {RE(1..15), RE(1..29), 30} \cup (IF RE(1..3) = 1 THEN {40} ELSE {})
-NextKinds(j) == CASE j = 40 -> {RE({41, 42})}
-                  [] j = 41 -> {31}
-                  [] j = 42 -> {32}
-                  [] j = 31 -> {32}
-                  [] OTHER -> FreeKinds
+SkelKinds == {RE(1..15), 16} \cup (IF RE(1..3) = 1 THEN {40} ELSE {})        \* C24 scripts: writes and saves only
+NextKinds(j, skel) ==
+  LET free == IF skel THEN SkelKinds ELSE FreeKinds IN
+  CASE j = 40 -> {RE({41, 42})}
+    [] j = 41 -> {31}
+    [] j = 42 -> IF skel \/ RE(1..2) = 1 THEN {44} ELSE {32}     \* save and go on in small sessions, or a full pass
+    [] j = 31 -> IF RE(1..2) = 1 THEN {32} ELSE {44}
+    [] j = 32 -> IF RE(1..2) = 1 THEN {44} ELSE free
+    [] j \in {43, 45} -> IF dirty THEN {44} ELSE Chain               \* (a removal that hit nothing: try again)
+    [] j = 44 -> LET x == RE(1..8) IN
+                 IF skel /\ latest = 1 /\ ~poisoned THEN {45}
+                 ELSE IF x <= 5 \/ (skel /\ x <= 7) THEN Chain ELSE IF x = 6 /\ ~skel THEN {19} ELSE free
+    [] OTHER -> free
 \* the first step starts a cycle; then the kinds of a step are drawn in the step before (two free ones, now and
-\* then the start of a new cycle)
-NextShape == \E j \in (IF n = 1 THEN {RE({41, 42})} ELSE kinds) : ShapeAct(j) /\ kinds' = NextKinds(j)
+\* then the start of a new cycle). The scripts of C24 start with a descending fill (every inner node but the first
+\* at the minimum), saved, and go on in small sessions.
+NextShape == \E j \in (IF n = 1 THEN {RE({41, 42})} ELSE kinds) : ShapeAct(j) /\ kinds' = NextKinds(j, FALSE)'
+NextShapeSkel == \E j \in (IF n = 1 THEN {42} ELSE kinds) : ShapeAct(j) /\ kinds' = NextKinds(j, TRUE)'
 
 \* skeleton generator (C24): hash-relevant calls only
 NextSkel == \E j \in {RE(1..3)} : IF j = 1 /\ dirty THEN SaveVersion ELSE SimWrites
@@ -472,6 +517,7 @@ Scripted ==
           [] s.act = "Fill" -> Fill(s.from, s.cnt, s.salt, s.asc)
           [] s.act = "Sparse" -> Sparse(s.off, s.stride, s.salt)
           [] s.act = "RemoveRange" -> RemoveRange(s.from, s.cnt, s.asc)
+          [] s.act = "Thin" -> Thin(s.from, s.cnt, s.period, s.lo, s.hi, s.asc)
           [] s.act = "SaveVersion" -> SaveVersion
      /\ pc' = pc + 1 /\ gap' = 0 /\ gapmax' = (IF s.act = "SaveVersion" THEN RE(0..4) ELSE (LET x == RE(0..7) IN IF x <= 5 THEN 0 ELSE x - 5))
      /\ spend' = pend'
@@ -520,6 +566,7 @@ Finish == n = MaxLen - 1 /\ UNCHANGED svars /\ Log([act |-> "Finish", reply |-> 
 NextSimF == (IF n < MaxLen - 1 THEN NextSim ELSE (Finish /\ UNCHANGED kinds)) /\ UNCHANGED scvars
 NextSkelF == (IF n < MaxLen - 1 THEN NextSkel ELSE Finish) /\ UNCHANGED <<scvars, kinds>>
 NextShapeF == (IF n < MaxLen - 1 THEN NextShape ELSE (Finish /\ UNCHANGED kinds)) /\ UNCHANGED scvars
+NextShapeSkelF == (IF n < MaxLen - 1 THEN NextShapeSkel ELSE (Finish /\ UNCHANGED kinds)) /\ UNCHANGED scvars
 Spec == Init /\ [][NextF]_<<vars, hist, scvars, kinds>>
 
 \* ---------------------------------------------------------------- properties (C23)
